@@ -148,6 +148,29 @@ Input(e) ==
      /\ viol' = viol \cup (IF WellFormed(G) THEN {} ELSE {"H:malformed-input"})
   /\ UNCHANGED <<strOf, canonOf, rootPart, sers, strs, mols, results>>
 
+\* --- graph_from_molecule(atom dictionaries, bond dictionaries) -> obj: the constructor the readers and the parser use, and a user
+\* who assembles a molecule by hand.  e.atoms = the atom dictionaries in the order of their keys (z, m, r, ... and attrx = rendering
+\* of every entry except the derived ones), e.bonds = <<position, position, rendering>>.  The result lists the atoms 0..n-1 in that
+\* order, carries every entry, states the invariant code (Z, mass or 0, radical or 0) afresh -- whatever code the dictionaries brought
+\* along -- and has exactly the given bonds.  None of the listed properties is about this call alone: deviations are reported as R:.
+BuildClauses(e) ==
+  LET n == Len(e.atoms)  r == e.g IN
+  IF r.n # n THEN {"R:build-changes-the-number-of-atoms"} ELSE
+     (IF r.labs = [i \in 1..n |-> i - 1] /\ r.order = [i \in 1..n |-> i - 1] THEN {} ELSE {"R:build-does-not-number-the-atoms-0..n-1-in-key-order"})
+  \cup (IF \A i \in 1..n : r.atoms[i].attrx = e.atoms[i].attrx THEN {} ELSE {"R:build-does-not-carry-the-entries-of-the-dictionaries"})
+  \cup (IF \A i \in 1..n : r.atoms[i].ic = <<e.atoms[i].z, e.atoms[i].m, e.atoms[i].r>> THEN {} ELSE {"R:build-invariant-code-is-not-(Z,mass,rad)"})
+  \cup (IF {<<r.edges[j][1], r.edges[j][2], r.edges[j][3]>> : j \in 1..Len(r.edges)} = {<<e.bonds[j][1], e.bonds[j][2], e.bonds[j][3]>> : j \in 1..Len(e.bonds)}
+          THEN {} ELSE {"R:build-bonds-differ-from-the-dictionaries"})
+Build(e) ==
+  /\ e.op = "build" /\ NewObj(e.obj)
+  /\ LET G == GraphOf(e.g) IN
+     /\ objs' = objs @@ (e.obj :> G)
+     /\ cls' = cls @@ (e.obj :> e.obj)
+     /\ root' = root @@ (e.obj :> [a \in Atoms(G) |-> a])
+     /\ prov' = prov @@ (e.obj :> [cl |-> e.obj, g |-> G, rt |-> [a \in Atoms(G) |-> a], pstr |-> ""])
+     /\ viol' = viol \cup (IF WellFormed(G) THEN {} ELSE {"H:malformed-input"}) \cup BuildClauses(e)
+  /\ UNCHANGED <<strOf, canonOf, rootPart, sers, strs, mols, results>>
+
 \* the user presents another description of a known molecule.  kind "relabel": atoms renumbered
 \* (perm), listing order / bond orientation changed, all data carried along.  kind "nonidentity":
 \* additionally charges, coordinates, bond types, extra attributes may differ (C06).
@@ -452,13 +475,21 @@ ReadBonds(r) == {<<r.edges[j][1], r.edges[j][2], r.edges[j][4]>> : j \in 1..Len(
 Num(fl, lit) == IF lit = "" THEN "0.0" ELSE fl[lit]          \* a blank V2000 coordinate field is zero
 Numeric(D, fl) == [i \in 1..Len(D.atoms) |-> [D.atoms[i] EXCEPT !.x = Num(fl, D.atoms[i].x), !.y = Num(fl, D.atoms[i].y), !.z = Num(fl, D.atoms[i].z)]]
 LiteralsKnown(D, fl) == \A i \in 1..Len(D.atoms) : ({D.atoms[i].x, D.atoms[i].y, D.atoms[i].z} \ {""}) \subseteq DOMAIN fl
-DecodeText(e) == IF e.fmt = "V2000" THEN DecodeV2000(e.lines) ELSE DecodeV3000(e.lines)
+\* which table a text holds is said by the last blank-separated word of its fourth line (trailing blanks do not count);
+\* the recorder's own statement of the format (e.fmt) is only cross-checked
+RTrim(s) == LET ks == {i \in 1..Len(s) : Chr(s, i) # " "} IN IF ks = {} THEN "" ELSE SubSeq(s, 1, Max(ks))
+VersionOf(lines) == IF Len(lines) < 4 THEN "" ELSE
+                    LET t == RTrim(lines[4])  bl == {i \in 1..Len(t) : Chr(t, i) = " "} IN
+                    IF bl = {} THEN t ELSE SubSeq(t, Max(bl) + 1, Len(t))
+DecodeText(e) == LET v == VersionOf(e.lines) IN
+                 IF v = "V2000" THEN DecodeV2000(e.lines) ELSE IF v = "V3000" THEN DecodeV3000(e.lines) ELSE DErr("version")
 ElementKnown(D) == \A i \in 1..Len(D.atoms) : D.atoms[i].sym \in SymSet
 
 \* graph_from_molfile_text(text) -> obj | exception.   pfx = "C07" (V3000), "C08" (V2000) or "C09" (read-back of a written file)
 ReadClauses(e, D) ==
   LET pfx == e.pfx IN
   IF ~D.ok \/ ~ElementKnown(D) THEN {}                  \* not a conformant table: nothing is demanded of the reader
+  ELSE IF Has(e, "suffix") /\ e.suffix # ".mol" THEN {}  \* the file API goes by the file's name first
   ELSE IF Has(e, "exc") THEN {pfx \o ":conformant-file-rejected(" \o e.exc \o ")"}
   ELSE IF ~LiteralsKnown(D, e.floats) THEN {"H:coordinate-literal-without-numeric-reading"}
   ELSE LET A == ReadAtoms(e.g)  N == Numeric(D, e.floats) IN
@@ -475,8 +506,12 @@ ReadClauses(e, D) ==
                THEN {"H:reference-decoder-disagrees-with-the-rendered-molecule"} ELSE {})
 ReadText(e) ==
   /\ e.op = "read" /\ NewObj(e.obj)
-  /\ LET D == DecodeText(e) IN
+  /\ LET D == DecodeText(e)  v == VersionOf(e.lines) IN
      /\ viol' = viol \cup ReadClauses(e, D)
+                     \cup (IF Has(e, "fmt") /\ v \in {"V2000", "V3000"} /\ e.fmt # v THEN {"H:format-stated-by-the-recorder-is-not-the-text's"} ELSE {})
+                     \cup (IF v \notin {"V2000", "V3000"} /\ Has(e, "g") THEN {"R:text-without-a-supported-version-word-was-read"} ELSE {})
+                     \* graph_from_file takes files named *.mol only
+                     \cup (IF Has(e, "suffix") /\ e.suffix # ".mol" /\ Has(e, "g") THEN {"R:file-with-another-suffix-was-read"} ELSE {})
      /\ mols' = mols @@ (e.obj :> D)
      /\ IF Has(e, "g")
         THEN LET G == MkGraph(e.g) IN
@@ -561,7 +596,7 @@ WriteText(e) ==
   /\ UNCHANGED <<objs, cls, root, prov, strOf, canonOf, rootPart, sers, strs, mols, results>>
 
 Step(e) == \/ Input(e) \/ Derive(e) \/ Mutate(e) \/ Touch(e) \/ SameMol(e) \/ Canonicalize(e) \/ Automorphism(e) \/ Serialize(e)
-           \/ Raised(e) \/ Completed(e) \/ Emitted(e) \/ Parse(e) \/ ReadText(e) \/ SameText(e) \/ DistinctText(e) \/ WriteText(e) \/ StringIn(e) \/ Respell(e) \/ Result(e) \/ Permute(e) \/ SerializeRaw(e)
+           \/ Raised(e) \/ Completed(e) \/ Emitted(e) \/ Parse(e) \/ ReadText(e) \/ SameText(e) \/ DistinctText(e) \/ WriteText(e) \/ StringIn(e) \/ Respell(e) \/ Result(e) \/ Permute(e) \/ SerializeRaw(e) \/ Build(e)
 
 \* ------------------------------------------------------------------ the properties, as state predicates
 Clean(prefix) == \A c \in viol : SubSeq(c, 1, Len(prefix)) # prefix
